@@ -17,10 +17,11 @@ NAME_CHARS = 'abcdefghijklmnopqrstuvwxyzABCDEFGHIJKLMNOPQRSTUVWXYZ0123456789_'
 
 def expand(value: str, environ: Dict[str, str], bug: int = 0) -> str:
     """bug: seeded oracle errors (0 = none).  1: unknown name kept verbatim; 2: the substituted text is
-    scanned again; 3: an empty name `${}` is a reference too."""
+    scanned again (together with what follows it); 3: an empty name `${}` is a reference too."""
     out = ''
     i = 0
     n = len(value)
+    rescans = 0
     while i < n:
         if value[i] == '$' and i + 1 < n and value[i + 1] == '{':
             j = i + 2
@@ -29,10 +30,12 @@ def expand(value: str, environ: Dict[str, str], bug: int = 0) -> str:
             if j < n and value[j] == '}' and (j > i + 2 or bug == 3):
                 name = value[i + 2:j]
                 if name in environ:
-                    sub = environ[name]
-                    if bug == 2:
-                        sub = expand(sub, environ)
-                    out += sub
+                    if bug == 2 and rescans < 3:
+                        rescans += 1
+                        value = value[:i] + environ[name] + value[j + 1:]
+                        n = len(value)
+                        continue
+                    out += environ[name]
                 elif bug == 1:
                     out += value[i:j + 1]
                 i = j + 1
